@@ -22,6 +22,8 @@ Fixpoint captured_tinstr (t : tinstr) : list nid :=
   | TFold _ _ args => concat (co <$> args)
   | TCutoff tg _ => co tg
   | TExport o => co o
+  | TMemoCall _ _ => []
+  | TMemoNew f => captured_bindfn f
   | TBind lhs f => co lhs ++ captured_bindfn f
   end
 with captured_bindfn (f : bindfn) : list nid :=
@@ -89,6 +91,8 @@ Definition roots (s : state) (pins : list obj) : list obj :=
   pins
   ++ (ONode <$> omap id (handles s))
   ++ (ONode <$> exports s)
+  (* the memoised closures are held by the program; they capture the outer operands of their body *)
+  ++ (ONode <$> concat ((fun m => captured_bindfn (BindFn [] [(m_body m, m_ret m)])) <$> memos s))
   ++ concat (imap (fun i (vr : var) =>
                if bool_decide (v_handles vr = O) then []
                else [OVar i; ONode (v_node_id vr)]) (vars s))      (* public::Var holds the Rc<Var> and a watch Incr *)
